@@ -727,3 +727,41 @@ def o1b_listing_follows_links(ctx):
     if n == 0:
         r.ok("storage::bitcask::utils::sorted_fileids", "file-ness is tested through the path, following links", "src/storage/bitcask/utils.rs", "no link-level file-type call in the listing")
     return r
+
+
+def s19b_key_transparency(ctx):
+    r = RuleResult(
+        "S19b",
+        "a key is the bytes the client sent: every conversion into net::command::Utf8Bytes (TryFrom<Bytes>, From<String>, From<&str>) wraps its argument unchanged — the wrapped Bytes is the parameter itself (or Bytes::from of the parameter / its to_string), never the result of trimming, slicing, case folding or re-encoding; and AsRef/AsMut hand out the wrapped field. Two keys that differ in one byte are two keys: a normalisation in the wrapper makes GET return another key's value and DEL count wrongly",
+        floor=3,
+    )
+    prog = ctx.prog
+    ty = "net::command::Utf8Bytes"
+    ALLOWED_WRAP = ("std::convert::From::from", "std::string::ToString::to_string", "std::convert::Into::into", "bytes::Bytes::from", "std::borrow::ToOwned::to_owned", "bytes::Bytes::copy_from_slice", "str::as_bytes", "core::str::<impl str>::as_bytes", "std::string::String::into_bytes", "std::clone::Clone::clone")
+    bodies = [b for b in prog.bodies.values() if re.match(r"^<%s as std::convert::(TryFrom|From)<.*>>::(try_from|from)$" % re.escape(ty), b.path)]
+    if not bodies:
+        r.unrec("Utf8Bytes", "conversions into the key type", "src/net/command.rs", "none found")
+        return r
+    for b in sorted(bodies, key=lambda x: x.path):
+        pname = (b.params or ["value"])[0]
+        lits = []
+        for bb in sorted(b.live_blocks()):
+            if b.blocks[bb]["cleanup"]:
+                continue
+            for st in b.blocks[bb]["stmts"]:
+                if st["k"] == "assign" and st["rv"]["k"] == "agg" and st["rv"].get("ak") == "adt" and strip_generics(st["rv"]["adt"]) == ty:
+                    lits.append((bb, st))
+        if not lits:
+            r.unrec(b.path.split(" as ")[-1], "construction of the key", short_span(b.span), "no Utf8Bytes literal in the conversion")
+            continue
+        for bb, st in lits:
+            o = expand(prog, b.origin_operand(st["rv"]["ops"][0]))
+            # peel the allowed re-wrappings; what remains must be the parameter
+            x = peel(o)
+            hops = 0
+            while x[0] == "call" and x[1] in ALLOWED_WRAP and x[2] and hops < 6:
+                x = peel(x[2][0])
+                hops += 1
+            ok = x == ("arg", pname)
+            r.add(b.path.split("convert::")[-1].rstrip(">").replace(">::", "::"), "the key wraps the argument unchanged", ok, where(b, bb), "" if ok else "the wrapped bytes are %s, not the argument: keys that differ in the bytes this drops or rewrites collapse into one" % origin_str(o)[:90])
+    return r
